@@ -378,7 +378,9 @@ def custom_mock(spec):
 def run_get_custom(repo, mj, names):
   I = new_interp(repo, reset=False)
   # _get_name is interpreted for real on the bytes buffer (names are addressed by byte offset)
-  I.contracts[('brax.io.mjcf', '_check_custom')] = lambda m, c: None
+  # the validator runs for real (it receives the dict that is returned: whatever it writes reaches the System); its range
+  # checks on symbolic values do not raise -- the mock is a valid model
+  I.assume_valid = True
   return I.apply(fn('brax.io.mjcf', '_get_custom'), [mj], {})
 
 
